@@ -169,7 +169,7 @@ func canonLenient(s gschema.Schema, doc string) (string, error) {
 func main() {
 	r := vx.Start("C01")
 	genrun.MaybeServe()
-	r.PerKindSmallest = true
+	// frontier by parents only: several minimal witnesses of one kind are all reported
 	schemas := gschema.Enumerate(r.Thorough())
 	if r.Replay != "" {
 		_, witness, _ := r.ReplayFile()
